@@ -601,6 +601,25 @@ def twin(world, victim, delta=250.0, protect=()):
     return w
 
 
+def knockout(world, cases, victim=None, field=None):
+    """Copy of `world` with the universe cases `cases` [(ti, li, si), ...] made missing: only `field` of party
+    `victim`, or - when victim is None - every field of every party (the case is deleted from the world).
+    Files are written densely (a row per case, missing tokens), so that no dimension entry disappears."""
+    import copy
+    w = copy.deepcopy(world)
+    for k, party in enumerate(parties(w)):
+        party["layout"]["sparse"] = False
+        for (ti, li, si) in cases:
+            if ti in party["times"] and li in party["leadtimes"] and si in party["locations"]:
+                i, j, s_ = party["times"].index(ti), party["leadtimes"].index(li), party["locations"].index(si)
+                if victim is None:
+                    for g in party["fields"].values():
+                        g[i][j][s_] = None
+                elif k == victim and field in party["fields"]:
+                    party["fields"][field][i][j][s_] = None
+    return w
+
+
 def sibling_times(world, rng):
     """Copy of `world` whose universe keeps the number of times and its first and last time but has
     different interior times (a second dataset that collides with the first on any weak fingerprint
